@@ -236,7 +236,11 @@ func run(p *plan.Plan, res *Result) {
 	w.Arm(p.Park)
 	if provider != nil && p.Scen.Server != "lookup" {
 		s.hasServer = true
-		srv := tq.NewServer(lg, provider)
+		var sopts []tq.Option
+		if p.Scen.Proxy {
+			sopts = append(sopts, tq.SetUseProxy(true))
+		}
+		srv := tq.NewServer(lg, provider, sopts...)
 		s.serveDone = make(chan struct{})
 		go func() {
 			err := srv.Serve(ctx, w.Listener)
@@ -895,7 +899,7 @@ func (s *sched) clientStep(c *cli) {
 	switch op.Kind {
 	case "send":
 		if !c.conn.ClientClosed() {
-			b := op.Pkt.Wire(c.spec.Key)
+			b := append(c.spec.ProxyLine(), op.Pkt.Wire(c.spec.Key)...)
 			c.conn.ClientWrite(b)
 			s.w.Rec(world.Ev{Actor: "cli", Kind: "cli-send", Conn: c.conn.ID, A: int64(len(b)), B: int64(c.op)})
 		}
